@@ -74,7 +74,7 @@ def gen_signals(rng, n):
 
 def gen_vfuncs(rng, cname, n):
     out = []
-    names = ['do_it', 'compute', 'changed', 'get_size', 'reset', 'frob', 'load', 'save']
+    names = ['do_it', 'compute', 'changed', 'get_extent', 'reset', 'frob', 'load', 'save']     # none may collide with a property accessor (get_size did)
     rng.shuffle(names)
     for i in range(n):
         first = rng.choice(['self', 'self', 'self', 'other', 'none', 'parent'])
